@@ -43,6 +43,10 @@ func mix(x uint64) uint64 {
 }
 
 func yield(site string) {
+	if s := activeSched.Load(); s != nil {
+		s.park(site, nil)
+		return
+	}
 	lvl := pertLevel.Load()
 	if lvl == 0 {
 		return
@@ -102,6 +106,8 @@ type ccc struct {
 	swaps     int
 	refreshes int
 	grown     int
+	pendingUp []*csc // created and not yet brought up (scheduled programs)
+	states    []connectivity.State
 }
 
 func gid() uint64 {
@@ -164,6 +170,9 @@ func (c *ccc) NewSubConn(a []resolver.Address, o balancer.NewSubConnOptions) (ba
 		}
 	}
 	c.mu.Unlock()
+	c.mu.Lock()
+	c.pendingUp = append(c.pendingUp, sc)
+	c.mu.Unlock()
 	select {
 	case c.newConns <- sc:
 	default:
@@ -190,6 +199,7 @@ func (c *ccc) UpdateAddresses(sc balancer.SubConn, a []resolver.Address) {}
 func (c *ccc) UpdateState(s balancer.State) {
 	c.mu.Lock()
 	c.pickers = append(c.pickers, s.Picker)
+	c.states = append(c.states, s.ConnectivityState)
 	c.state = s.ConnectivityState
 	c.mu.Unlock()
 }
